@@ -10,6 +10,10 @@ from .core import AnalysisError
 from .sym import Model, S, term, show, is_conc
 
 
+class ShapeSplit(AnalysisError):
+    """the stack depth became data dependent (a pop / push that only happens for some operand values) and is used afterwards"""
+
+
 class SymStack(Model):
     cls = 'scripts:Stack'
     def __init__(self, items=None, used=0):
@@ -32,7 +36,8 @@ class SymStack(Model):
 
     def _check(self):
         if self.variants is not None:
-            raise AnalysisError('stack used after a shape-changing conditional')
+            raise ShapeSplit('stack used after a shape-changing conditional: %s' % '; '.join(
+                '%s -> %d items above %d consumed' % (show(t), len(i), self.used) for t, i in self.variants))
 
     def ensure(self, k):
         self._check()
